@@ -40,12 +40,12 @@ struct FuncInfo { std::string name; int na = 0, nd = 0; bool fuel = false; bool 
 // Result kind "rt": q i64 (default), d, f, l -- the i64 result is masked to what the type holds exactly and converted.
 // Block (by-value aggregate) kinds take an integer argument v like an integer parameter; the caller spreads it over the
 // fields (field j holds v + j; a double field holds ((v + j) & 0xffff) converted), the callee folds them back:
-// a_k = sum (j + 1) * field j.   S {i64} T {i64,i64} P {d,d} M {i64,d} N {d,i64} G {i64,i64,i64 -- passed in memory}
+// a_k = sum (j + 1) * field j.   S {i64} T {i64,i64} Q {d} P {d,d} M {i64,d} N {d,i64} G {i64 x3} H {i64 x4} (G, H: passed in memory)
 static inline bool int_kind(char c) { return c != 'd' && c != 'f' && c != 'l'; }
 struct BlkInfo { const char *mir; int size; const char *fields; };
 static inline const BlkInfo *blk_info(char c) {
-  static const BlkInfo S_ = {"blk1", 8, "q"}, T_ = {"blk1", 16, "qq"}, P_ = {"blk2", 16, "dd"}, M_ = {"blk3", 16, "qd"}, N_ = {"blk4", 16, "dq"}, G_ = {"blk", 24, "qqq"};
-  switch (c) { case 'S': return &S_; case 'T': return &T_; case 'P': return &P_; case 'M': return &M_; case 'N': return &N_; case 'G': return &G_; default: return nullptr; }
+  static const BlkInfo S_ = {"blk1", 8, "q"}, T_ = {"blk1", 16, "qq"}, Q_ = {"blk2", 8, "d"}, P_ = {"blk2", 16, "dd"}, M_ = {"blk3", 16, "qd"}, N_ = {"blk4", 16, "dq"}, G_ = {"blk", 24, "qqq"}, H_ = {"blk", 32, "qqqq"};
+  switch (c) { case 'S': return &S_; case 'T': return &T_; case 'Q': return &Q_; case 'P': return &P_; case 'M': return &M_; case 'N': return &N_; case 'G': return &G_; case 'H': return &H_; default: return nullptr; }
 }
 static inline bool blk_kind(char c) { return blk_info(c) != nullptr; }
 static inline bool has_blk(const std::string &ps) { for (char c : ps) if (blk_kind(c)) return true; return false; }
@@ -54,7 +54,7 @@ static inline std::string default_ps(int na, int nd) { return std::string((size_
 static inline std::string ps_of(const Json &f) { std::string p = f.gets("ps", ""); return p.empty() ? default_ps((int) f.geti("na"), (int) f.geti("nd")) : p; }
 static inline char rt_of(const Json &f) { std::string p = f.gets("rt", ""); return p.empty() ? 'q' : p[0]; }
 static inline const char *mir_ty(char c) { switch (c) { case 'i': return "i32"; case 'u': return "u32"; case 'b': return "i8"; case 'B': return "u8"; case 'w': return "i16"; case 'W': return "u16"; case 'd': return "d"; case 'f': return "f"; case 'l': return "ld"; default: return "i64"; } }
-static inline const char *c_ty(char c) { switch (c) { case 'S': return "struct dsl_bS"; case 'T': return "struct dsl_bT"; case 'P': return "struct dsl_bP"; case 'M': return "struct dsl_bM"; case 'N': return "struct dsl_bN"; case 'G': return "struct dsl_bG"; case 'i': return "int"; case 'u': return "unsigned int"; case 'b': return "signed char"; case 'B': return "unsigned char"; case 'w': return "short"; case 'W': return "unsigned short"; case 'd': return "double"; case 'f': return "float"; case 'l': return "long double"; default: return "long long"; } }
+static inline const char *c_ty(char c) { switch (c) { case 'S': return "struct dsl_bS"; case 'T': return "struct dsl_bT"; case 'P': return "struct dsl_bP"; case 'M': return "struct dsl_bM"; case 'N': return "struct dsl_bN"; case 'G': return "struct dsl_bG"; case 'Q': return "struct dsl_bQ"; case 'H': return "struct dsl_bH"; case 'i': return "int"; case 'u': return "unsigned int"; case 'b': return "signed char"; case 'B': return "unsigned char"; case 'w': return "short"; case 'W': return "unsigned short"; case 'd': return "double"; case 'f': return "float"; case 'l': return "long double"; default: return "long long"; } }
 static inline int64_t narrow(char c, int64_t v) {
   if (const BlkInfo *b = blk_info(c)) { uint64_t r = 0; for (int j = 0; b->fields[j]; j++) r += (uint64_t) (j + 1) * blk_field(b->fields[j], v, j); return (int64_t) r; }
   switch (c) { case 'i': return (int32_t) v; case 'u': return (int64_t) (uint32_t) v; case 'b': return (int8_t) v; case 'B': return (uint8_t) v; case 'w': return (int16_t) v; case 'W': return (uint16_t) v; default: return v; } }
@@ -84,7 +84,7 @@ template <class F> static inline void walk(const Json &body, F fn) {  // fn(stmt
   for (auto &st : body.a) { fn(st); for_each_block(st, [&](const Json &b) { walk(b, fn); }); }
 }
 static inline std::string mir_param(char c, const std::string &name) { if (const BlkInfo *b = blk_info(c)) return S("%s:%d(%s)", b->mir, b->size, name.c_str()); return std::string(mir_ty(c)) + ":" + name; }
-static const char *C_BLK_DECLS = "struct dsl_bS { long long x; }; struct dsl_bT { long long x, y; }; struct dsl_bP { double x, y; }; struct dsl_bM { long long x; double y; }; struct dsl_bN { double x; long long y; }; struct dsl_bG { long long x, y, z; };\n";
+static const char *C_BLK_DECLS = "struct dsl_bS { long long x; }; struct dsl_bT { long long x, y; }; struct dsl_bP { double x, y; }; struct dsl_bM { long long x; double y; }; struct dsl_bN { double x; long long y; }; struct dsl_bG { long long x, y, z; }; struct dsl_bQ { double x; }; struct dsl_bH { long long x, y, z, w; };\n";
 static inline std::string proto_name(const std::string &ps, char rt) { return std::string("p_") + rt + "_" + ps; }
 
 // ------------------------------------------------------------------------------------------------ MIR text emitter
@@ -390,7 +390,7 @@ struct CEmitter {
       fn = &f; depth = 0; out.clear(); auto &fi = all.at(f.gets("name"));
       r += (f.geti("exp", 1) ? "" : "static ") + proto(fi) + " {\n  long long v0 = 0, v1 = 0, v2 = 0, v3 = 0, v4 = 0, v5 = 0; char buf[64];\n  (void) v1; (void) v2; (void) v3; (void) v4; (void) v5; (void) buf;\n";
       { int ai = 0; for (char c : fi.ps) { if (const BlkInfo *b = blk_info(c)) {
-          static const char *fn_[] = {"x", "y", "z"}; r += S("  long long a%d = (long long)(0ULL", ai);
+          static const char *fn_[] = {"x", "y", "z", "w"}; r += S("  long long a%d = (long long)(0ULL", ai);
           for (int j = 0; b->fields[j]; j++) r += S(" + (unsigned long long)(long long) s%d.%s * %dULL", ai, fn_[j], j + 1);
           r += S("); (void) a%d;\n", ai); }
         if (int_kind(c)) ai++; } }
@@ -545,13 +545,20 @@ struct Generator {
       if (o.wide && i == total - 1 && !fi.fuel) fi.na = (int) r.range(65, 70);   // one function with a very long parameter list
       fi.nd = fi.na > 8 ? 0 : o.doubles && r.chance(1, 4) ? (int) (r.chance(1, 3) ? r.range(4, 8) : r.range(1, 3)) : 0; fi.cgoto = (o.jt || o.lref) && r.chance(1, 2);
       if (fi.na > 8) fi.cgoto = false;
+      if (o.typed && o.blocks && fi.na <= 8 && !fi.fuel && r.chance(1, 2)) fi.na = (int) r.range(1, 8);   // aggregates meet every register boundary
+      if (o.typed && o.blocks && fi.na <= 8 && i > 0 && !fs[i - 1].ps.empty() && has_blk(fs[i - 1].ps) && !fi.fuel && !fs[i - 1].fuel && r.chance(1, 3)) {
+        // sibling signature: the previous function's, with one aggregate of the same class but another size
+        fi.na = fs[i - 1].na; fi.nd = fs[i - 1].nd; fi.ps = fs[i - 1].ps; fi.rt = fs[i - 1].rt;
+        std::vector<size_t> bp; for (size_t q = 0; q < fi.ps.size(); q++) if (strchr("STQPGH", fi.ps[q])) bp.push_back(q);
+        if (!bp.empty()) { char &c = fi.ps[bp[r.below(bp.size())]]; c = c == 'S' ? 'T' : c == 'T' ? 'S' : c == 'Q' ? 'P' : c == 'P' ? 'Q' : c == 'G' ? 'H' : 'G'; }
+      } else
       if (o.typed && fi.na <= 8 && r.chance(1, 2)) {  // parameter kinds: narrow integers, float, long double, in any order; floating-point result
         if (fi.nd == 0 && r.chance(1, 2)) fi.nd = (int) r.range(1, r.chance(1, 4) ? 10 : 4);
         bool stacky = r.chance(1, 3);   // more integers than integer registers (or more doubles than SSE registers) followed by long doubles: everything meets on the stack
         if (stacky) { if (r.chance(2, 3)) fi.na = (int) r.range(7, 8); else fi.nd = (int) r.range(9, 10); if (fi.nd == 0) fi.nd = (int) r.range(1, 3); }
         static const char ik[] = "qqqiubBwW", fk[] = "ddfl"; std::string ints, fps;
         int nblk = 0;
-        for (int k = 0; k < fi.na; k++) { bool blk = o.blocks && nblk < 3 && !(k == 0 && fi.fuel) && r.chance(1, 4); if (blk) nblk++; ints += (k == 0 && fi.fuel) ? 'q' : blk ? "STPMNG"[r.below(6)] : ik[r.below(9)]; }
+        for (int k = 0; k < fi.na; k++) { bool blk = o.blocks && nblk < 3 && !(k == 0 && fi.fuel) && r.chance(1, 3); if (blk) nblk++; ints += (k == 0 && fi.fuel) ? 'q' : blk ? "STQPMNGH"[r.below(8)] : ik[r.below(9)]; }
         for (int k = 0; k < fi.nd; k++) fps += fk[r.below(4)];
         if (stacky) fps[fps.size() - 1] = 'l';
         size_t a = 0, b = 0; while (a < ints.size() || b < fps.size()) { bool ti = b >= fps.size() || (a < ints.size() && r.coin()); if (a == 0 && fi.fuel) ti = true; if (stacky && b + 1 == fps.size() && a < ints.size()) ti = true; fi.ps += ti ? ints[a++] : fps[b++]; }  // (stacky: the last long double comes after all integers)
